@@ -63,6 +63,7 @@ PROPS["C01"] = dict(
         "Zrnt.Proofs.C01.exit_eq",
         "Zrnt.Proofs.C01.deposit_eq",
         "Zrnt.Proofs.C01.withdrawalsApply_eq",
+        "Zrnt.Proofs.C01.syncAggregate_eq",
         "Zrnt.Proofs.C01.proposer_frame",
         "Zrnt.Proofs.C01.WF_preserved_block_partial",
     ],
@@ -81,9 +82,9 @@ PROPS["C01"] = dict(
     assumptions=ASSUME_BLOCK + [
         "M_block_refines_S is proved only in part. Whole operations proved M = S (accept/reject and post-state, M = the code-shaped model "
         "lean/Zrnt/Beacon/Impl/BlockM.lean that is also the model column of c01/c03): header, randao, eth1 vote, voluntary exit (end to end), "
-        "deposit, BLS-to-execution change, execution payload of all three forks, the withdrawals state update (against the pure core the monadic S is cross-checked with at run time); pieces: ZigZagJoin, exit-queue scan, withdrawals sweep, "
+        "deposit, BLS-to-execution change, execution payload of all three forks, the withdrawals state update and the sync aggregate (against the pure cores the monadic S is cross-checked with at run time); pieces: ZigZagJoin, exit-queue scan, withdrawals sweep, "
         "slashable predicate, indexed-attestation structure check, attestation timing. NOT proved (correspondence Go = M = S only): "
-        "process_attestation of every fork, slash_validator and the two slashings as whole operations, sync aggregate, "
+        "process_attestation of every fork, slash_validator and the two slashings as whole operations, "
         "the composition into process_block (needs the frame lemma proposer_frame per operation) and block signature/state root",
         "the round-2 theorems take the EpochsContext as an abstract record with hypotheses that C07 (proposer, committees), C08 (active count, stake) "
         "and C16 (pubkey cache = registry) establish for a real context",
